@@ -381,7 +381,8 @@ func (o *Obligation) Script(withModel bool) string {
 	if x.model.BV {
 		b.WriteString(bvPrelude())
 	}
-	b.WriteString(x.w.structDecls(x.model))
+	head := b.String()
+	b.Reset()
 	all := append(append([]*Term(nil), o.Hyps...), o.Goal)
 	// lemma hypotheses
 	lem := x.lemmaHyps(o)
@@ -430,7 +431,8 @@ func (o *Obligation) Script(withModel bool) string {
 	if withModel {
 		b.WriteString("(get-model)\n")
 	}
-	return b.String()
+	body := b.String()
+	return head + x.w.structDeclsFor(x.model, body) + body
 }
 
 // relaxInts returns a variant of the script in which every Int is read as
@@ -633,6 +635,25 @@ type solverSpec struct {
 	argv func(file string, sec int) []string
 }
 
+// extraSolvers: variants raced in addition during the second pass (hard
+// obligations only). Solver behaviour on quantified queries is sensitive to
+// incidental details; different seeds / instantiation strategies make the
+// verdict on a valid obligation robust. Any `unsat` is a proof.
+var extraSolvers = []solverSpec{
+	{"z3-new-5.1.0/seed7", func(f string, s int) []string {
+		return []string{"z3-new", "-smt2", fmt.Sprintf("-T:%d", s), "smt.random_seed=7", "sat.random_seed=7", f}
+	}},
+	{"z3-new-5.1.0/seed23", func(f string, s int) []string {
+		return []string{"z3-new", "-smt2", fmt.Sprintf("-T:%d", s), "smt.random_seed=23", "smt.qi.eager_threshold=20", f}
+	}},
+	{"z3-4.8.12/seed7", func(f string, s int) []string {
+		return []string{"z3", "-smt2", fmt.Sprintf("-T:%d", s), "smt.random_seed=7", f}
+	}},
+	{"cvc5-1.0/enum", func(f string, s int) []string {
+		return []string{"cvc5", fmt.Sprintf("--tlimit=%d", s*1000), "--lang=smt2", "--enum-inst", f}
+	}},
+}
+
 var solvers = []solverSpec{
 	{"z3-new-5.1.0", func(f string, s int) []string { return []string{"z3-new", "-smt2", fmt.Sprintf("-T:%d", s), f} }},
 	{"z3-4.8.12", func(f string, s int) []string { return []string{"z3", "-smt2", fmt.Sprintf("-T:%d", s), f} }},
@@ -707,7 +728,7 @@ func solveAll(obls []*Obligation, workdir string, quickSec, slowSec int, thoroug
 	if os.Getenv("GOWP_TIMING") != "" {
 		fmt.Fprintf(os.Stderr, "gowp: rendering took %.1fs\n", time.Since(tr).Seconds())
 	}
-	run := func(idx []int, jobs, qs, ss int) {
+	run := func(idx []int, jobs, qs, ss int, diversify bool) {
 		sem := make(chan struct{}, jobs)
 		for _, i := range idx {
 			i := i
@@ -717,7 +738,7 @@ func solveAll(obls []*Obligation, workdir string, quickSec, slowSec int, thoroug
 				defer wg.Done()
 				defer func() { <-sem }()
 				t1 := time.Now()
-				res[i] = solveScript(obls[i], scripts[i], pure[i], workdir, i, qs, ss, thorough)
+				res[i] = solveScript(obls[i], scripts[i], pure[i], workdir, i, qs, ss, thorough, diversify)
 				if w := time.Since(t1).Seconds(); w > 2 && os.Getenv("GOWP_TIMING") != "" {
 					fmt.Fprintf(os.Stderr, "gowp: slow %s wall %.1fs status %s tried %v\n", obls[i].Name, w, res[i].Status, res[i].Tried)
 				}
@@ -739,9 +760,9 @@ func solveAll(obls []*Obligation, workdir string, quickSec, slowSec int, thoroug
 		short = quickSec
 	}
 	if thorough {
-		run(all, jobs, quickSec, slowSec)
+		run(all, jobs, quickSec, slowSec, false)
 	} else {
-		run(all, jobs, short, short)
+		run(all, jobs, short, short, false)
 		var again []int
 		for i, r := range res {
 			if !obls[i].ExpectSat && !noRetry[obls[i].Name] && (r.Status == "timeout" || r.Status == "unknown" || r.Status == "error") {
@@ -751,13 +772,13 @@ func solveAll(obls []*Obligation, workdir string, quickSec, slowSec int, thoroug
 		if len(again) > 0 {
 			// generous limit: only the few hard obligations get here, and
 			// a timeout on an unchanged tree would be a false alarm
-			run(again, 4, 3*quickSec, 3*slowSec)
+			run(again, 3, 6*quickSec, 6*slowSec, true)
 		}
 	}
 	return res
 }
 
-func solveScript(o *Obligation, script, purified, workdir string, idx, quickSec, slowSec int, thorough bool) SolveResult {
+func solveScript(o *Obligation, script, purified, workdir string, idx, quickSec, slowSec int, thorough, diversify bool) SolveResult {
 	if script == "" {
 		return SolveResult{Status: "unsat", Solver: "trivial"}
 	}
@@ -787,9 +808,14 @@ func solveScript(o *Obligation, script, purified, workdir string, idx, quickSec,
 	// (quick); thorough waits for everybody and checks agreement.
 	ctx, cancel := context.WithCancel(context.Background())
 	defer cancel()
-	ch := make(chan r, 8)
+	var ch chan r
 	n := 0
-	for _, sp := range solvers {
+	ch = make(chan r, 16)
+	set := solvers
+	if diversify {
+		set = append(append([]solverSpec(nil), solvers...), extraSolvers...)
+	}
+	for _, sp := range set {
 		sp := sp
 		n++
 		go func() {
